@@ -260,20 +260,23 @@ def run(repo: Repo, chk: Check) -> None:
     hp = repo.func(f'{OPF}.has_parameters')
     table = []
     for present in (False, True):
-        for ep_def in (False, True):
+        for ep_kind in ('default', 'reserved (root, do, set_delegate, stake, ...)', 'named'):
             for unit in (False, True):
-                if not present and (ep_def or unit):
+                if not present and (ep_kind != 'named' or unit):
                     continue
                 c: Dict[str, Any] = {'kind': 'transaction'}
                 if present:
                     c['parameters'] = {'entrypoint': Sym('parameters.entrypoint'), 'value': Sym('parameters.value')}
-                res = Interp(repo, OpHooks(ep_default=ep_def, value_unit=unit), max_depth=1).run_function(hp, [c])
+                ep_def = ep_kind == 'default'
+                hooks = OpHooks(ep_reserved=ep_kind != 'named', ep_default=ep_def, value_unit=unit)
+                res = Interp(repo, hooks, max_depth=1).run_function(hp, [c])
                 want = present and not (ep_def and unit)
                 ok = len(res) == 1 and res[0].outcome == 'return' and res[0].value is want
-                table.append((present, ep_def, unit, [vrepr(p.value) for p in res]))
-                chk.ob('R-DISPATCH', hp.qualname, ok, f'present={present} default={ep_def} unit={unit}', hp.loc,
+                table.append((present, ep_kind, unit, [vrepr(p.value) for p in res]))
+                chk.ob('R-DISPATCH', hp.qualname, ok, f'present={present} entrypoint={ep_kind} unit={unit}', hp.loc,
                        {'got': [vrepr(p.value) for p in res], 'want': want},
-                       what='parameters must be omitted exactly for entrypoint default with value Unit')
+                       what=f'parameters must be omitted exactly for entrypoint default with value Unit; with parameters present={present}, entrypoint {ep_kind}, '
+                            f'value {"Unit" if unit else "not Unit"} has_parameters gives {[vrepr(p.value) for p in res]}')
     # ---- 5 group ------------------------------------------------------------------------------------------------
     chk.set_clause('C06.5')
     fg = repo.func(f'{OPF}.forge_operation_group')
